@@ -204,6 +204,7 @@ pub const F_DROP_PANIC: u8 = 1;
 pub const F_CLONE_PANIC: u8 = 2;
 pub const F_NEXT_PANIC: u8 = 3;
 pub const F_LEN_LIE: u8 = 4;
+pub const F_FORGET: u8 = 5;
 pub const F_MEM_FAIL: u8 = 6;
 pub const FAULT_NAMES: [&str; 13] = [
     "", "F1_drop_panic", "F2_clone_panic", "F3_next_panic", "F4_len_lie", "F5_forget", "F6_mem_fail", "F7_relocate",
